@@ -66,7 +66,7 @@ def explore_world(task):
         return res
     outs = outcomes_v2(order) if v2 else outcomes_v1(order)
     if library or param:
-        outs = [o for o in outs if "W" not in o]   # the shipped rail allows or rejects
+        outs = [o for o in outs if "W" not in o and "N" not in o]   # the shipped rail allows or rejects (its stub returns a verdict dict / bool)
     kinds = (["llm", "predef"] + ([] if v2 else ["var"])) if dialog is True else ["llm"]
     nonce = [0]
     tag = f"{'v2' if v2 else 'v1'}:{'llmlib' if dialog == 'llm' else ('dialog' if dialog else 'nodialog')}" + (":library-rails" if library else "") + (":parameterised-rails" if param else "")
@@ -86,10 +86,11 @@ def explore_world(task):
                 plan = []
                 for r, k in zip(order, oc):
                     plan.append((r, k))
-                    if k == "R":
+                    if k in "RN":
                         break
                 for r, k in plan:
-                    verdicts[r] = "R" if k == "R" else ("A" if k == "A" else ("W", f"RW{r}t{t}x{nonce[0]}q rewritten"))
+                    # N: the rail's action rejects with None (a falsy result that is not False)
+                    verdicts[r] = k if k in "RN" else ("A" if k == "A" else ("W", f"RW{r}t{t}x{nonce[0]}q rewritten"))
                 if v2:
                     turn = rw.run_turn(world, [{"role": "user", "content": user_text}], verdicts, llm_fn_for(kind, version), state=ctx)
                 else:
@@ -133,7 +134,7 @@ def explore_world(task):
                     rejected_by = None
                     for r, k in plan:
                         expected.append((r, cur))
-                        if k == "R":
+                        if k in "RN":
                             rejected_by = r
                             break
                         if k == "W":
@@ -428,7 +429,7 @@ def replay(rp):
     for step in rp["history"]:
         verdicts = {"in1": "A"}
         for r, k in zip(order, step["outcome"]):
-            verdicts[r] = "R" if k == "R" else ("A" if k == "A" else ("W", f"RW{r} rewritten"))
+            verdicts[r] = k if k in "RN" else ("A" if k == "A" else ("W", f"RW{r} rewritten"))
         if v2:
             turn = rw.run_turn(world, [{"role": "user", "content": step["user"]}], verdicts, llm_fn_for(step["kind"], "2.x"), state=ctx)
             ctx = turn.reply.state if turn.reply is not None else ctx
